@@ -367,7 +367,9 @@ class BufferedFile(ClosingContextManager):
 
         :returns: file position (`number <int>` of bytes).
         """
-        return self._pos
+        # data written but still sitting in the write buffer has moved the
+        # position as far as the caller is concerned
+        return self._pos + self._wbuffer.tell()
 
     def write(self, data):
         """
